@@ -96,7 +96,8 @@ def rod_spec(planar: bool, max_elems: int = 40):
         "n_elems": st.integers(2, max_elems),
         "key": gen.block_keys,
         "shape_mode": st.sampled_from(["straight", "bent", "bent", "wiggly"]),
-        "taper": st.sampled_from(["uniform", "linear", "random"]),
+        "taper": st.sampled_from(["uniform", "linear", "random", "slight", "slight"]),
+        "taper_ratio": f(1.02, 2.0),
         "radius": f(0.01, 0.3),
         "length": f(0.3, 3.0),
         "start": st.lists(f(-1.0, 1.0), min_size=3, max_size=3),
@@ -168,6 +169,8 @@ def make_rod(spec):
         radius = np.full(n, rad)
     elif spec["taper"] == "linear":
         radius = rad * np.linspace(1.0, 0.15, n)
+    elif spec["taper"] == "slight":  # almost uniform rods: per-element marker counts of surface grids differ by a few
+        radius = rad * np.linspace(1.0, 1.0 / float(spec.get("taper_ratio", 1.25)), n)
     else:
         radius = rad * (0.1 + 0.9 * rng.random(n))
     vel = spec["vel_scale"] * rng.normal(size=(3, n + 1))
